@@ -3,6 +3,7 @@ package main
 import (
 	"math"
 	"math/rand"
+	"sort"
 
 	"github.com/peterstace/simplefeatures/geom"
 )
@@ -64,13 +65,24 @@ func rectDesc(rc geom.Geometry, s float64, inv func(geom.XY) geom.XY) Event {
 }
 
 func hullGen(r *rand.Rand, n int, tier string, emit func(Case)) {
-	for i := 0; i < n; i++ {
+	for i := 0; i < n+bigExtra(n); i++ {
+		big := i >= n // large sizes come last
 		l := &lgen{r: r, N: 3 + r.Intn(6)}
 		if r.Intn(5) == 0 {
 			l.N = 9 + r.Intn(8)
 		}
 		var g geom.Geometry
-		switch r.Intn(8) {
+		sel := r.Intn(8)
+		if big {
+			l, sel = bigLattice(r), -1
+		}
+		switch sel {
+		case -1:
+			if r.Intn(2) == 0 {
+				g = l.bigAny()
+			} else {
+				g = l.convexMany()
+			}
 		case 0: // point multisets with duplicates and collinear runs
 			var pts []geom.Point
 			m := 1 + r.Intn(12)
@@ -219,7 +231,7 @@ func hullExec(c Case) Event {
 	ev["hullp"] = hullDesc(back(geom.NewMultiPoint(pts).AsGeometry().ConvexHull()))
 	ev["ra"] = rectDesc(geom.RotatedMinimumAreaBoundingRectangle(g), s, inv)
 	ev["rw"] = rectDesc(geom.RotatedMinimumWidthBoundingRectangle(g), s, inv)
-	ev["rects"] = c.num("N") <= 8
+	ev["rects"] = c.num("N") <= 100 // the specification's rectangle arithmetic stays within 32 bits up to there
 	if t := c.list("t"); t != nil && (hexFloat(t[1]) != 0 || hexFloat(t[2]) != 0) && hexFloat(t[0]) < 1 {
 		ev["rects"] = false // a tiny image at a large offset: the rectangle's own rounding exceeds the lattice unit
 	}
@@ -229,4 +241,110 @@ func hullExec(c Case) Event {
 
 func init() {
 	register("hull", &Family{Gen: hullGen, Exec: hullExec, OnPanic: hullOnPanic})
+}
+
+// convexMany: the vertices of a convex lattice polygon with many edges - primitive edge vectors in angular order,
+// most of them within one quarter turn (a dense arc closed by a few long edges) or spread all round - as a polygon,
+// a ring, or a shuffled point set with a few interior points. Sets l.N to the extent of the figure.
+func (l *lgen) convexMany() geom.Geometry {
+	r := l.r
+	type dir struct{ dx, dy int }
+	n := l.bigCount()
+	var prim []dir
+	for dx := 0; dx <= 6; dx++ { // 25 directions: the figure stays within 100 units, where the rectangle claims are checked
+		for dy := 0; dy <= 6; dy++ {
+			if dx+dy > 0 && gcdInt(dx, dy) == 1 {
+				prim = append(prim, dir{dx, dy})
+			}
+		}
+	}
+	r.Shuffle(len(prim), func(i, j int) { prim[i], prim[j] = prim[j], prim[i] })
+	if n > len(prim) {
+		n = len(prim)
+	}
+	ds := append([]dir{}, prim[:n]...)
+	spread := r.Intn(3) == 0
+	if spread { // reflect some of them into the other quadrants
+		for i := range ds {
+			switch r.Intn(4) {
+			case 1:
+				ds[i] = dir{-ds[i].dy, ds[i].dx}
+			case 2:
+				ds[i] = dir{-ds[i].dx, -ds[i].dy}
+			case 3:
+				ds[i] = dir{ds[i].dy, -ds[i].dx}
+			}
+		}
+	}
+	// distinct directions only (rotating may have produced duplicates)
+	seen := map[dir]bool{}
+	var us []dir
+	for _, d := range ds {
+		if !seen[d] {
+			seen[d] = true
+			us = append(us, d)
+		}
+	}
+	sx, sy := 0, 0
+	for _, d := range us {
+		sx, sy = sx+d.dx, sy+d.dy
+	}
+	// close the polygon: the missing sum as one or two axis-parallel edges (skipped if already a direction in use)
+	for _, d := range []dir{{-sx, 0}, {0, -sy}} {
+		if d.dx != 0 || d.dy != 0 {
+			us = append(us, d)
+		}
+	}
+	sort.Slice(us, func(i, j int) bool {
+		hi, hj := halfOf(us[i].dx, us[i].dy), halfOf(us[j].dx, us[j].dy)
+		if hi != hj {
+			return hi < hj
+		}
+		return us[i].dx*us[j].dy-us[i].dy*us[j].dx > 0
+	})
+	x, y, minx, miny := 0, 0, 0, 0
+	pts := []geom.XY{{}}
+	for _, d := range us[:len(us)-1] {
+		x, y = x+d.dx, y+d.dy
+		pts = append(pts, geom.XY{X: float64(x), Y: float64(y)})
+		if x < minx {
+			minx = x
+		}
+		if y < miny {
+			miny = y
+		}
+	}
+	ext := 0
+	for i := range pts {
+		pts[i].X -= float64(minx)
+		pts[i].Y -= float64(miny)
+		if int(pts[i].X) > ext {
+			ext = int(pts[i].X)
+		}
+		if int(pts[i].Y) > ext {
+			ext = int(pts[i].Y)
+		}
+	}
+	l.N = ext + 1
+	switch r.Intn(3) {
+	case 0:
+		ring := append(append([]geom.XY{}, pts...), pts[0])
+		if p := geom.NewPolygon([]geom.LineString{geom.NewLineString(seqOf(ring))}); genValid(p) {
+			return p.AsGeometry()
+		}
+	case 1:
+		ring := append(append([]geom.XY{}, pts...), pts[0])
+		return geom.NewLineString(seqOf(ring)).AsGeometry()
+	}
+	// a few points between vertices (inside or on the hull: convex combinations rounded towards the first vertex)
+	for k := 0; k < 5; k++ {
+		a, b := pts[r.Intn(len(pts))], pts[r.Intn(len(pts))]
+		pts = append(pts, geom.XY{X: math.Floor((a.X + b.X) / 2), Y: math.Floor((a.Y + b.Y) / 2)})
+	}
+	r.Shuffle(len(pts), func(i, j int) { pts[i], pts[j] = pts[j], pts[i] })
+	var ps []geom.Point
+	for _, p := range pts {
+		ps = append(ps, p.AsPoint())
+	}
+	return geom.NewMultiPoint(ps).AsGeometry()
 }
